@@ -723,7 +723,11 @@ fn exec_owned(t: &Trace, out: &mut Outcome) {
             viol = Some(Violation { oracle: "I6-accessor", step, detail: format!("get_bytes null={} len={} expected len={}", ab.is_null(), al, model.bytes.len()) });
             break 'ops;
         }
-        if rl != model.bytes.len() || rl > rc {
+        if rl > rc {
+            viol = Some(Violation { oracle: "I4-beyond-cap", step, detail: format!("len={} exceeds cap={} of the Rust-owned buffer: bytes were written past the allocation", rl, rc) });
+            break 'ops;
+        }
+        if rl != model.bytes.len() {
             viol = Some(Violation { oracle: "I1-len", step, detail: format!("len={} cap={} expected len={}", rl, rc, model.bytes.len()) });
             break 'ops;
         }
